@@ -375,6 +375,12 @@ func dependsOn(v ssa.Value, pred func(ssa.Value) bool) bool {
 			return true
 		}
 		switch t := x.(type) {
+		case *ssa.FreeVar:
+			// captured variable: continue in the enclosing function at the closure's binding
+			if b := freeVarBinding(t); b != nil {
+				return walk(b, depth+1)
+			}
+			return false
 		case *ssa.Alloc:
 			// values stored into this local (also through element / field addresses:
 			// composite literals and varargs arrays are built that way)
@@ -535,4 +541,29 @@ func recvNamed(f *types.Func) string {
 		}
 	}
 	return ""
+}
+
+// freeVarBinding returns the value bound to a closure's free variable where the closure is created.
+func freeVarBinding(fv *ssa.FreeVar) ssa.Value {
+	fn := fv.Parent()
+	if fn == nil || fn.Parent() == nil {
+		return nil
+	}
+	idx := -1
+	for i, f := range fn.FreeVars {
+		if f == fv {
+			idx = i
+		}
+	}
+	if idx < 0 {
+		return nil
+	}
+	for _, b := range fn.Parent().Blocks {
+		for _, in := range b.Instrs {
+			if mc, ok := in.(*ssa.MakeClosure); ok && mc.Fn == ssa.Value(fn) && idx < len(mc.Bindings) {
+				return mc.Bindings[idx]
+			}
+		}
+	}
+	return nil
 }
